@@ -10,10 +10,9 @@ open PhyVerif PhyVerif.C09
 
 /-- After any merges / splits / reassignments: every cluster id from 0 to the maximum maps to
 exactly the sorted set of templates its spikes came from, and the table has one entry per id. -/
-theorem mergeMap_spec (st sc : List Nat) (hlen : st.length = sc.length) (c : Nat)
-    (hc : c ≤ sc.foldl max 0) :
+theorem mergeMap_spec (st sc : List Nat) (hlen : st.length = sc.length) (c : Nat) :
     (mergeMap st sc).getD c [] = templatesOf st sc c ∧ (mergeMap st sc).length = sc.foldl max 0 + 1 :=
-  Lemmas.mergeMap_spec st sc hlen c hc
+  Lemmas.mergeMap_spec st sc hlen c
 
 /-- Ids without spikes are exactly the ones reported as empty. -/
 theorem nanIdx_spec (st sc : List Nat) (hlen : st.length = sc.length) (c : Nat) :
@@ -22,24 +21,23 @@ theorem nanIdx_spec (st sc : List Nat) (hlen : st.length = sc.length) (c : Nat) 
 
 /-- A cluster stemming from a single template carries that template's waveform unchanged. -/
 theorem single_template_unchanged (W : List Mat) (chans : List (List Nat)) (st sc : List Nat)
-    (hlen : st.length = sc.length) (ns nc c t : Nat) (hc : c ≤ sc.foldl max 0)
+    (hlen : st.length = sc.length) (ns nc c t : Nat)
     (h1 : templatesOf st sc c = [t]) :
     (clusterWaveforms W chans st sc ns nc).getD c [] = W.getD t [] :=
-  Lemmas.single_template_unchanged W chans st sc hlen ns nc c t hc h1
+  Lemmas.single_template_unchanged W chans st sc hlen ns nc c t h1
 
 /-- A cluster stemming from several templates carries, on the channels of its dominant template,
 the spike-count-weighted mean of its templates' channel-restricted waveforms (zero on the other
 channels). -/
 theorem multi_template_weighted_mean (W : List Mat) (chans : List (List Nat)) (st sc : List Nat)
-    (hlen : st.length = sc.length) (hst : ∀ t ∈ st, t < W.length) (ns nc c : Nat)
-    (hc : c ≤ sc.foldl max 0) (hmulti : 2 ≤ (templatesOf st sc c).length)
+    (hst : ∀ t ∈ st, t < W.length) (ns nc c : Nat)
+    (hmulti : 2 ≤ (templatesOf st sc c).length)
     (hW : ∀ M ∈ W, M.length = ns ∧ ∀ row ∈ M, row.length = nc)
-    (hch : ∀ l ∈ chans, l.Nodup ∧ ∀ ch ∈ l, ch < nc) (hcl : chans.length = W.length)
-    (s ch : Nat) (hs : s < ns) (hchn : ch < nc) :
+    (s ch : Nat) :
     (((clusterWaveforms W chans st sc ns nc).getD c []).getD s []).getD ch 0 =
       if (chans.getD (argmaxNat (templateCounts st sc W.length c)) []).contains ch
       then weightedMean W chans st sc c s ch else 0 :=
-  Lemmas.multi_template_weighted_mean W chans st sc hlen hst ns nc c hc hmulti hW hch hcl s ch hs hchn
+  Lemmas.multi_template_weighted_mean W chans st sc hst ns nc c hmulti hW s ch
 
 /-- The dominant template is one with the largest spike count in the cluster (the first such). -/
 theorem dominant_has_max_count (st sc : List Nat) (nt c : Nat) (hnt : 0 < nt) :
